@@ -20,6 +20,8 @@ FILENAMES_PLAIN = ["a.txt", "b.txt", "src/c.rs", "docs/d.md"]
 FILENAMES_HOSTILE = ["sp ace.txt", "unié中.txt", "-dash.txt", "q'uote.txt", "dir with sp/in ner.txt", "tab\tname.txt",
                      "plus+++.txt", "a b/c d.txt", "@@.txt", "0123456789abcdef", "CON.txt", "deep/er/and/deeper/x.txt"]
 
+FILENAMES_EXTREME = ["---", "  lead.txt", 'dq"uote.txt', "nl\nname.txt", '"quoted".txt', "trail .txt", "x\\y.txt", "semi;colon &amp.txt"]
+
 WS = re.compile(r"\s+")
 
 
@@ -249,6 +251,8 @@ class Scenario:
         pool = list(FILENAMES_PLAIN)
         if p["hostile_names"]:
             pool = FILENAMES_HOSTILE + FILENAMES_PLAIN[:1]
+        if p.get("extreme_names"):
+            pool = [n for n in FILENAMES_EXTREME if p.get("name:" + n, True)] + FILENAMES_HOSTILE[:3]
         self.rng.shuffle(pool)
         self.files = pool[:max(1, p["files"])]
         return self.files
